@@ -583,5 +583,6 @@ class DepProtocol(Contract):
         topo = names
         ref = run(topo, topo if case["refit"] else None)
         got = run(case["order"], case["refit"])
-        bad = [k for k in names if not np.allclose(ref[k], got[k], rtol=1e-5, atol=1e-8)]
-        return {"confirmed": bool(bad), "detail": f"parameters differ from the dependency-order result for {bad}: {{k: got[k].tolist() for k in bad}}"}
+        # "within optimiser tolerance": curve_fit started from different parameters agrees to ~1e-5 relative, 1e-6 absolute
+        bad = [k for k in names if not np.allclose(ref[k], got[k], rtol=1e-3, atol=1e-5)]
+        return {"confirmed": bool(bad), "detail": f"parameters differ from the dependency-order result for {bad}: " + str({k: (got[k].tolist(), ref[k].tolist()) for k in bad})}
